@@ -156,6 +156,29 @@ pub fn scenario_stall(layout: &str) -> Scenario {
     sc
 }
 
+/// The same, and while the mirror is stalled a RELOAD rebuilds the pool: the server connection (and with it the
+/// mirror connection) is closed by the pooler with requests still queued for the mirror.
+pub fn scenario_stall_reload(layout: &str) -> Scenario {
+    let mut sc = scenario_stall(layout);
+    sc.alt_tomls = vec![sc.toml.replacen("[pools.db]\n", "[pools.db]\nidle_timeout = 40000\n", 1)];
+    assert!(sc.alt_tomls[0].contains("idle_timeout = 40000"));
+    let n = sc.actors[1].steps.len();
+    // between "stops reading" and "reads again": after four seconds of the stall
+    sc.actors[1].steps.insert(n - 2, Step::Wait(Cond::TimeMs(4000)));
+    sc.actors[1].steps.insert(n - 1, Step::WriteConfig(0));
+    sc.actors[1].steps.insert(n, Step::Admin("RELOAD".into()));
+    // the client's next statement, still during the stall, makes it let go of the old pool: that is when the
+    // pooler closes the old server connection
+    let after_reload = n + 1;
+    let extra = Script::new("x").wait(Cond::ActorAt(1, after_reload)).q(&format!("INSERT INTO t VALUES (55) /*{}*/", tag(0, 55, 0))).actor().steps;
+    let at = sc.actors[0].steps.iter().position(|x| matches!(x, Step::Wait(Cond::ActorsDone(_)))).unwrap();
+    for (i, st) in extra.into_iter().enumerate() {
+        sc.actors[0].steps.insert(at + i, st);
+    }
+    sc.name = format!("{} reload-during-stall", sc.name);
+    sc
+}
+
 fn is_subsequence(small: &[Msg], big: &[Msg]) -> Option<usize> {
     // returns the index in `small` of the first message that cannot be matched
     let mut j = 0;
@@ -256,6 +279,19 @@ pub fn oracle(sc: &Scenario, out: &Outcome) -> Vec<Violation> {
             ));
         }
     }
+    // whole requests only: a mirror connection never ends in the middle of a message
+    for e in log {
+        if let Rec::Note { msg } = &e.rec {
+            if msg.contains("TORN-MESSAGE") {
+                if let Some(id) = msg.split_whitespace().nth(1).and_then(|x| x.parse::<usize>().ok()) {
+                    let srv = conn_server(log, id);
+                    if sc.servers.iter().any(|s| s.addr == srv && s.label.contains("mirror")) {
+                        vs.push(v("C20.partial-request", format!("C20.partial-request:torn:{}", ctx), format!("mirror {}: {}", srv, msg)));
+                    }
+                }
+            }
+        }
+    }
     for conn in conn_ids(log) {
         let srv = conn_server(log, conn);
         let label = match sc.servers.iter().find(|s| s.addr == srv) {
@@ -317,6 +353,7 @@ pub fn build(tier: &str) -> SimCheck {
     }
     for layout in ["one-on-0", "two-on-0"] {
         scenarios.push(scenario_stall(layout));
+        scenarios.push(scenario_stall_reload(layout));
     }
     for layout in LAYOUTS {
         scenarios.push(scenario_prewarm(layout, "healthy", 6));
@@ -327,7 +364,7 @@ pub fn build(tier: &str) -> SimCheck {
         oracle: Box::new(oracle),
         bound: if thorough { 3 } else { 2 },
         limits: Limits { max_wall_s: if thorough { 2400.0 } else { 55.0 }, ..Default::default() },
-        rule: "scenario = mirror layout (one mirror on server 0, on server 1, two on server 0, one on each) x behaviour of the first mirror (healthy, down, closing after accept, SYN black hole, accepting and never answering, accepting and never reading, closing mid-stream, answering errors, slow), from the start or toggled (and recovered) at every point of the client's program (<= bound deviations); 22-30 requests (each server gets more chunks than the 10-slot mirror channel holds) alternating between primary and replica over both protocols incl. COPY and multi-kilobyte replies; also a mirror that stalls for eight seconds and resumes while 400 KB requests fill the pipe to it; also with the prewarmer plugin on (statements of the pooler's own on every new server connection)".into(),
+        rule: "scenario = mirror layout (one mirror on server 0, on server 1, two on server 0, one on each) x behaviour of the first mirror (healthy, down, closing after accept, SYN black hole, accepting and never answering, accepting and never reading, closing mid-stream, answering errors, slow), from the start or toggled (and recovered) at every point of the client's program (<= bound deviations); 22-30 requests (each server gets more chunks than the 10-slot mirror channel holds) alternating between primary and replica over both protocols incl. COPY and multi-kilobyte replies; also a mirror that stalls for eight seconds and resumes while 400 KB requests fill the pipe to it (also with a RELOAD that rebuilds the pool during the stall); also with the prewarmer plugin on (statements of the pooler's own on every new server connection)".into(),
         assumptions: vec![
             "'same replies as without mirrors' is judged against the direct-connection reference; 'no added waiting' as: every reply arrives in the virtual instant of its request".into(),
             "request wholeness is checked at message level (the backend cannot see the pooler's write boundaries)".into(),
